@@ -3252,6 +3252,7 @@ class C12(ProcProp):
             t_tg = time.time()
             s4a_sender_report_part(self, ctx, w)
             ctx.distribution["seconds:sender-report"] = round(time.time() - t_tg, 1)
+            c12_tty_stdin_envpass_part(self, ctx, w)
             ctx.evaluations += w.nruns
             self.count(ctx, "proc:runs", w.nruns)
         finally:
@@ -3596,6 +3597,94 @@ class C12(ProcProp):
 
 
 # =========================================================================== the sender report: every wiring of stdout AND stderr, every kind of name
+def c12_tty_stdin_envpass_part(self, ctx, w):
+    """standard input a TERMINAL while the password comes from the environment (--env-pass): a wrong KESTREL_PASSWORD must end
+    the command with exit 1 and an Error line (the unlock of a keyring key is retried only for a person who can TYPE another
+    password; the variable cannot change between attempts), a right one must complete.  Found 2026-09-29 by reading the retry
+    loop of commands::encrypt / commands::decrypt (finding F5, repaired in /repo): with --env-pass, a wrong password and a terminal
+    on stdin the unchanged program printed 'Key unlock failed.' for ever.  Every key command and both password commands are run
+    this way; a run that has not ended after LIMIT seconds is killed and reported."""
+    import pty
+    LIMIT = 45
+    P = w.P["small"]
+    jobs = []
+    kr = {"KESTREL_KEYRING": "kr_first"}
+    for label, argv, good, files in (
+            ("encrypt", ["encrypt", "pt_small", "-t", "bob", "-f", "alice", "-o", "tty_ct", "-k", "kr_full", "--env-pass"], w.pw["alice"], ["tty_ct"]),
+            ("decrypt", ["decrypt", "ct_small", "-t", "bob", "-o", "tty_pt", "--env-pass"], w.pw["bob"], ["tty_pt"]),
+            ("decrypt to stdout", ["decrypt", "ct_small", "-t", "bob", "--env-pass"], w.pw["bob"], []),
+            ("password decrypt", ["password", "decrypt", "pct_small", "-o", "tty_ppt", "--env-pass"], w.passpw, ["tty_ppt"]),
+            ("password encrypt", ["password", "encrypt", "pt_small", "-o", "tty_pct", "--env-pass"], w.passpw, ["tty_pct"])):
+        wrongs = [good + b"x", b"", b"wrong"] if good else [b"x"]
+        for pw, ok in [(good, True)] + [(x, False) for x in wrongs[: (3 if ctx.thorough() else 2)]]:
+            if label == "password encrypt" and not ok:
+                continue      # every password is a right one for encrypting
+            jobs.append((label, argv, pw, ok, files))
+
+    def one(j):
+        label, argv, pw, ok, files = j
+        d = tempfile.mkdtemp(prefix="tty_", dir=w.dir)
+        for f in os.listdir(w.dir):
+            src = os.path.join(w.dir, f)
+            if os.path.isfile(src) and not f.startswith("tty_"):
+                try:
+                    os.link(src, os.path.join(d, f))
+                except OSError:
+                    shutil.copy(src, os.path.join(d, f))
+        try:
+            m, sl = pty.openpty()
+        except OSError:
+            return None
+        e = {"PATH": "/usr/bin:/bin", "HOME": d, "LANG": "C.UTF-8", "KESTREL_KEYRING": "kr_first"}
+        try:
+            e["KESTREL_PASSWORD"] = pw.decode("utf-8")
+        except UnicodeDecodeError:
+            os.close(m); os.close(sl)
+            return None
+        t0 = time.time()
+        p = subprocess.Popen([w.bin] + argv, env=e, stdin=sl, stdout=subprocess.PIPE, stderr=subprocess.PIPE, start_new_session=True, cwd=d)
+        os.close(sl)
+        hung = False
+        try:
+            out, err = p.communicate(timeout=LIMIT)
+        except subprocess.TimeoutExpired:
+            hung = True
+            try:
+                os.killpg(p.pid, 9)
+            except OSError:
+                p.kill()
+            out, err = p.communicate()
+        os.close(m)
+        got = {f: (open(os.path.join(d, f), "rb").read() if os.path.exists(os.path.join(d, f)) else None) for f in files}
+        shutil.rmtree(d, ignore_errors=True)
+        return {"rc": p.returncode, "out": out, "err": err, "hung": hung, "secs": round(time.time() - t0, 1), "files": got}
+    res = self.pmap(one, jobs)
+    for (label, argv, pw, ok, files), r in zip(jobs, res):
+        if r is None:
+            self.count(ctx, "tty-stdin-env-pass:not-available")
+            continue
+        self.count(ctx, "tty-stdin-env-pass:%s:%s" % (label, "right" if ok else "wrong"))
+        desc = {"argv": ["kestrel"] + argv, "env": {"KESTREL_PASSWORD": pw.decode("utf-8", "replace"), "KESTREL_KEYRING": "kr_first"},
+                "stdin": "a pseudo-terminal (nothing is typed)", "cwd": "a copy of the C12 world"}
+        errs = r["err"].decode("utf-8", "replace")
+        if ok:
+            good = r["rc"] == 0 and not r["hung"]
+            if label.startswith("decrypt to stdout"):
+                good = good and r["out"] == P
+            elif label in ("decrypt", "password decrypt"):
+                good = good and r["files"][files[0]] == P
+            proc_judge(ctx, good, "C12 terminal on stdin with --env-pass, right password: %s" % label, [desc],
+                       "exit 0 and the complete result", "exit %s%s, stderr %r" % (r["rc"], " (killed after %d s)" % LIMIT if r["hung"] else "", errs[-200:]))
+        else:
+            nothing = all(v is None or v == b"" for v in r["files"].values()) and r["out"] == b""
+            proc_judge(ctx, r["rc"] == 1 and not r["hung"] and "Error" in errs and nothing,
+                       "C12 terminal on stdin with --env-pass, WRONG password: %s" % label, [desc],
+                       "the command ends with exit 1, an Error line, nothing delivered",
+                       "%s after %.1f s, exit %s, %d stderr lines (last: %r), delivered %s" % (
+                           "still running, killed" if r["hung"] else "ended", r["secs"], r["rc"], errs.count("\n"), errs[-80:],
+                           {k: (None if v is None else len(v)) for k, v in r["files"].items()}))
+
+
 def s4a_proc(w, argv, env=None, stdin=None, out="pipe", err="pipe", timeout=120, cwd=None):
     """one real process with BOTH output streams wired as asked (World.run always gives it two pipes).
     stdin: None (= the null device, opened read-only by this harness) | bytes | ('file', name in the world's directory)
